@@ -399,6 +399,7 @@ def ref_diss_index(psd, size, md, mi):
 GRAIN_CFGS = [
     {'name': 'grain-rk4-lognormal', 'grid': (1e-10, 1e-8, 150, 100, 200), 'mu': 3e-9, 's': 0.3, 'solver': 'RK4', 'time': 1.2e-2},
     {'name': 'grain-euler-lognormal', 'grid': (1e-10, 1e-8, 60, 40, 80), 'mu': 2e-9, 's': 0.4, 'solver': 'EXPLICITEULER', 'time': 6e-3},
+    {'name': 'grain-euler-lsw', 'grid': (1e-9, 1e-6, 100, 50, 150), 'dist': 'lsw', 'mu': 3e-7, 's': 0, 'solver': 'EXPLICITEULER', 'time': 5.0},
     {'name': 'grain-rk4-narrow', 'grid': (1e-9, 2e-8, 40, 30, 50), 'mu': 6e-9, 's': 0.15, 'solver': 'RK4', 'time': 5e-2},
 ]
 
@@ -410,8 +411,21 @@ def grain_run(cfg):
     from kawin.solver import SolverType
     m = GrainGrowthModel(*cfg['grid'])
     mu, s = cfg['mu'], cfg['s']
-    m.LoadDistributionFunction(lambda R: np.exp(-0.5 * ((np.log(R) - np.log(mu)) / s) ** 2) / R)
+    if cfg.get('dist') == 'lsw':
+        # coarsening-like distribution whose tail populates the smallest classes (dissolution index > 0)
+        m.LoadDistributionFunction(lambda R: (R / mu) ** 2 * np.exp(-(R / mu) ** 4))
+    else:
+        m.LoadDistributionFunction(lambda R: np.exp(-0.5 * ((np.log(R) - np.log(mu)) / s) ** 2) / R)
     recs = []
+    handed = []
+    orig_pp = m.postProcess
+
+    def pp(t, x, *a, **k):
+        # public GenericModel hook: the distribution the solver hands back after the (corrected) step
+        v = np.asarray(x[0], dtype=float)
+        handed.append((float(t), float(np.min(v)), int(np.argmin(v)), float(np.max(np.abs(v)))))
+        return orig_pp(t, x, *a, **k)
+    m.postProcess = pp
     pbm0 = m.pbm
     orig = pbm0.getDTEuler
 
@@ -427,6 +441,7 @@ def grain_run(cfg):
     pbm0.getDTEuler = obs
     with contextlib.redirect_stdout(io.StringIO()):
         m.solve(cfg['time'], solverType=getattr(SolverType, cfg['solver']), verbose=False)
+    cfg['_handed'] = handed
     return recs
 
 
@@ -460,7 +475,7 @@ def run_oracle(c):
 def model_runs(ctx):
     """returns (states sampled for the in-Coq correspondence, number of states checked)"""
     sampled, total = [], 0
-    cfgs = GRAIN_CFGS if not ctx.quick else GRAIN_CFGS[:2]
+    cfgs = [dict(c) for c in (GRAIN_CFGS if not ctx.quick else GRAIN_CFGS[:3])]
     seen = set()
     for cfg in cfgs:
         recs = grain_run(cfg)
@@ -475,6 +490,17 @@ def model_runs(ctx):
                 ctx.violation(cl, {'site': 'kawin/precipitation/coupling/GrainGrowth.py', 'cls': cls},
                               {'kind': 'history', 'run': cfg, 'step': c['step'], 'state': hexcase(c), 'observed': msg,
                                'oracle': 'harness/c07.py: run_oracle (threshold and rule recomputed from the property text on the state at the getDt call)'}, msg)
+        # explicit Euler: x + dt * corrected rate is what the solver hands to the model; the corrector guarantees that no class
+        # ends below zero (theorem C07_class_nonneg), whatever the step
+        if cfg['solver'] == 'EXPLICITEULER':
+            for k, (t, mn, arg, mx) in enumerate(cfg.pop('_handed', [])):
+                if mn < -1e-9 * max(mx, 1e-300) and ('class_nonneg', 'model_step') not in seen:
+                    seen.add(('class_nonneg', 'model_step'))
+                    msg = 'step %d of %s (t = %r): the distribution handed to the model after the corrected step has class %d = %r (largest class %r): a class lost more than it held' % (k, cfg['name'], t, arg, mn, mx)
+                    ctx.violation('class_nonneg', {'site': 'kawin/precipitation/coupling/GrainGrowth.py', 'cls': 'model_step'},
+                                  {'kind': 'history', 'run': {k2: v for k2, v in cfg.items() if not k2.startswith('_')}, 'step': k, 'observed': msg,
+                                   'oracle': 'harness/c07.py: model_runs (sign of the state passed to the public postProcess hook)'}, msg)
+        cfg.pop('_handed', None)
         # states for the correspondence with the Coq model: first, last, around each re-grid, a spread of others
         pick = set([0, len(recs) - 1] + [j for i in regrid for j in (i - 1, i, i + 1) if 0 <= j < len(recs)])
         pick |= set(int(x) for x in np.linspace(0, len(recs) - 1, 6 if ctx.quick else 40))
